@@ -303,7 +303,8 @@ def parseCase (line : String) : Option Case :=
     | ["D", api, stack] =>
       match parseStack stack, allSome (toks.map parseRec) with
       | some ds, some recs =>
-        if ds.length ≥ 1 && (api = "sl" || api = "sb" || api = "tl" || api = "bs") then some (.desc api ds recs) else none
+        if ds.length ≥ 1 && (api = "sl" || api = "sb" || api = "tl" || api = "bs" || api = "slp" || api = "bsp")
+        then some (.desc api ds recs) else none
       | _, _ => none
     | ["C", api, cmp] =>
       match cmpByName cmp, allSome (toks.map parseRec) with
@@ -324,7 +325,7 @@ def runCase : Case → String
   | .desc api ds recs =>
     let input := tag recs
     let lds := ds.map liftDesc
-    if api = "sl" || api = "tl" then
+    if api = "sl" || api = "tl" || api = "slp" then
       let (result, after) := sortedListBySortDescriptors lds input
       showIds result ++ (if after.map (·.1) == input.map (·.1) then "" else " mutated")
     else showIds (sortBySortDescriptors lds input)
@@ -375,7 +376,7 @@ def judgeCase (c : Case) (impl : String) : String :=
     match parseIds impl with
     | none => "violation no sorted list returned: " ++ impl
     | some (ids, mutated) =>
-      if mutated && (api = "sl" || api = "tl") then "violation the input was modified"
+      if mutated && (api = "sl" || api = "tl" || api = "slp") then "violation the input was modified"
       else verdict (lexLt ds) recs ids
   | .cmp _ less recs =>
     match parseIds impl with
